@@ -273,6 +273,13 @@ func (session *ServerCommandSession) handleOptions(requestCtx nazahttp.HttpReqMs
 func (session *ServerCommandSession) handleAnnounce(requestCtx nazahttp.HttpReqMsgCtx) error {
 	Log.Infof("[%s] < R ANNOUNCE", session.uniqueKey)
 
+	// 一个连接只承载一个pub或sub session。如果允许重复的ANNOUNCE/DESCRIBE覆盖之前的session，
+	// 连接结束时之前的session就再也不会通知上层离开，对应的流会一直被占用
+	if session.pubSession != nil || session.subSession != nil {
+		Log.Errorf("[%s] announce but session already exist.", session.uniqueKey)
+		return nazaerrors.Wrap(base.ErrRtsp)
+	}
+
 	urlCtx, err := base.ParseRtspUrl(requestCtx.Uri)
 	if err != nil {
 		Log.Errorf("[%s] parse presentation failed. uri=%s", session.uniqueKey, requestCtx.Uri)
@@ -290,6 +297,8 @@ func (session *ServerCommandSession) handleAnnounce(requestCtx nazahttp.HttpReqM
 	session.pubSession.InitWithSdp(sdpCtx)
 
 	if err = session.observer.OnNewRtspPubSession(session.pubSession); err != nil {
+		// 没有被上层接受的session，连接结束时不能再通知上层它的离开
+		session.pubSession = nil
 		return err
 	}
 
@@ -324,6 +333,11 @@ func (session *ServerCommandSession) handleDescribe(requestCtx nazahttp.HttpReqM
 		return err
 	}
 
+	if session.pubSession != nil || session.subSession != nil {
+		Log.Errorf("[%s] describe but session already exist.", session.uniqueKey)
+		return nazaerrors.Wrap(base.ErrRtsp)
+	}
+
 	session.describeSeq = requestCtx.Headers.Get(HeaderCSeq)
 
 	session.subSession = NewSubSession(urlCtx, session)
@@ -331,6 +345,7 @@ func (session *ServerCommandSession) handleDescribe(requestCtx nazahttp.HttpReqM
 	ok, rawSdp := session.observer.OnNewRtspSubSessionDescribe(session.subSession)
 	if !ok {
 		Log.Warnf("[%s] force close subSession.", session.uniqueKey)
+		session.subSession = nil
 		return base.ErrRtspClosedByObserver
 	}
 
